@@ -125,13 +125,32 @@ def dsge_limits(h: Harness, spec, b, g, mind, rng):
             h.holds(site, "depth-exceeds-limit", ["prop_depth", d, res[1]], f"mapped program deeper than {d}", replay)
 
 
+def corpus():
+    """fixed grammars whose wrapped field types have members of DIFFERENT minimum depth (a tuple needs its deepest
+    component, a union its shallowest, a list its element), under abstract and concrete start symbols, in both
+    depth modes -- shapes the random generator only meets by luck"""
+    C = gram.ClassSpec
+    base = [C("A0", True, None), C("Leaf", False, 0, []), C("Wrap", False, 0, [("e", ("cls", 1))]), C("Deep", False, 0, [("w", ("cls", 2))])]
+    out = []
+    for expansion in (False, True):
+        for ft in (("tuple", ("cls", 1), ("cls", 2)), ("tuple", ("cls", 3), ("cls", 1)), ("tuple", ("cls", 1), ("tuple", ("cls", 2), "bool")),
+                   ("union", ("cls", 2), ("cls", 1)), ("union", ("cls", 3), ("cls", 2)), ("list", ("cls", 2)),
+                   ("tuple", ("cls", 0), ("cls", 3)), ("ann", ("list", ("tuple", ("cls", 1), ("cls", 2))), ("listSize", 1, 2))):
+            out.append(gram.Spec(base + [C("P", False, 0, [("p", ft)])], 0, [1, 2, 3, 4], expansion))
+            out.append(gram.Spec(base + [C("S", False, None, [("p", ft), ("q", ("cls", 0))])], 4, [1, 2, 3, 4], expansion))
+    return out
+
+
 def run(h: Harness):
     rng = h.rng
     retry_witness(h)
     ngr = h.n(70, 1200)
-    for gi in range(ngr):
-        spec = gram.productive_spec(rng, max_classes=rng.choice([3, 4, 5, 7]), opts=OPTS)
-        if rng.random() < 0.2:
+    shaped = corpus()
+    for gi in range(len(shaped) + ngr):
+        spec = shaped[gi] if gi < len(shaped) else gram.productive_spec(rng, max_classes=rng.choice([3, 4, 5, 7]), opts=OPTS)
+        if gi < len(shaped):
+            h.count("corpus-grammars")
+        elif rng.random() < 0.2:
             # a CONCRETE start symbol: the first production choice happens below the root
             n = len(spec.classes)
             spec.classes.append(gram.ClassSpec(f"S{n}", False, None, [("a", ("cls", 0)), ("b", ("list", ("cls", 0)))][: rng.randint(1, 2)]))
